@@ -48,9 +48,9 @@ type aup struct {
 	w *World
 
 	data, tags, toMapStr, parse, parseLogLine, parseHeader, getType, typeString, enrich, extractKV *ssa.Function
-	fData, fError, fTags, fOffset, fRawData                                                      *types.Var
-	msgT                                                                                         *types.Named
-	ok                                                                                           bool
+	fData, fError, fTags, fOffset, fRawData                                                        *types.Var
+	msgT                                                                                           *types.Named
+	ok                                                                                             bool
 }
 
 func loadAup(r *Run, w *World) *aup {
